@@ -140,7 +140,7 @@ pub fn plan(prop: &str) -> Option<Plan> {
             p.o_link_weak = 18;
             p.o_upgrade = 16;
             p.o_unlink = 12;
-            p.kinds = vec![(24, Kind::D), (24, Kind::R), (6, Kind::L), (2, Kind::LS), (12, Kind::LB), (12, Kind::RB), (10, Kind::OB), (2, Kind::Sl), (2, Kind::SH), (2, Kind::Dyn), (6, Kind::P), (4, Kind::DB), (8, Kind::Set)];
+            p.kinds = vec![(24, Kind::D), (24, Kind::R), (6, Kind::L), (2, Kind::LS), (12, Kind::LB), (12, Kind::RB), (10, Kind::OB), (2, Kind::Sl), (2, Kind::SH), (2, Kind::Dyn), (6, Kind::P), (4, Kind::DB), (3, Kind::NT), (8, Kind::Set)];
             Plan {
                 prop: "C06",
                 profile: p,
@@ -298,14 +298,16 @@ pub fn plan(prop: &str) -> Option<Plan> {
             p.o_convert = 30;
             p.w_settle = 8;
             p.o_unlink = 12;
-            p.kinds = vec![(14, Kind::D), (8, Kind::R), (4, Kind::L), (4, Kind::LS), (6, Kind::LB), (6, Kind::RB), (4, Kind::OB), (12, Kind::Sl), (8, Kind::TSl), (12, Kind::SH), (8, Kind::TSH), (8, Kind::Str), (6, Kind::TStr), (8, Kind::Dyn), (8, Kind::Arr), (3, Kind::Set)];
+            p.kinds = vec![(14, Kind::D), (8, Kind::R), (4, Kind::L), (4, Kind::LS), (6, Kind::LB), (6, Kind::RB), (4, Kind::OB), (12, Kind::Sl), (8, Kind::TSl), (12, Kind::SH), (8, Kind::TSH), (8, Kind::Str), (6, Kind::TStr), (8, Kind::Dyn), (8, Kind::Arr), (6, Kind::DB), (4, Kind::P), (8, Kind::Set)];
+            p.o_stash = 8;
+            p.o_fetch = 10;
             Plan {
                 prop: "C19",
                 profile: p,
                 opts,
                 cases_quick: 200_000,
                 cases_thorough: 1_000_000,
-                rule: "random histories with conversion chains (erase, downgrade/upgrade, as_ptr/from_ptr, thin/fat, unsize!, erase_kind, weak unsize) whose result is stored and later is the only pointer kept; non-trivial = a conversion was performed and a collection cycle completed in the same history",
+                rule: "random histories with conversion chains (erase, downgrade/upgrade, as_ptr/from_ptr, thin/fat, unsize!, erase_kind, weak unsize) whose result is stored and later is the only pointer kept, plus DynamicRootSet stash / fetch / try_fetch / contains across several sets (a fetch must hand out the stashed object and only from its own set); non-trivial = a conversion was performed and a collection cycle completed in the same history",
                 nontrivial: |c| c.convert_ops > 0 && c.cycles_completed > 0,
                 crash_is_violation: true,
                 assumptions: &COMMON_ASSUMPTIONS,
